@@ -2,8 +2,17 @@
 """Builds /verif/seeded/RESULTS.md from the mutation-run log (tools/runmut.py) and the seeds' meta.json."""
 import json, os, collections
 LOG = '/tmp/seedwork/mut-results.jsonl'
+KEPT = '/verif/seeded/results.jsonl'   # committed copy of every mutation run (the /tmp log does not survive a restore)
+have = set(open(KEPT).read().splitlines()) if os.path.exists(KEPT) else set()
+if os.path.exists(LOG):
+    with open(KEPT, 'a') as k:
+        for l in open(LOG):
+            l = l.strip()
+            if l and l not in have:
+                k.write(l + '\n')
+                have.add(l)
 latest = collections.OrderedDict()
-for l in open(LOG):
+for l in open(KEPT):
     r = json.loads(l)
     latest[(r['seed'].replace('/', ''), r['prop'])] = r
 rows = []
